@@ -696,6 +696,9 @@ def gen_simd_target(sel, width_all=True):
             cases.append(gen.malformed(r, ["portable", sel, "auto"]))
             cases.append(gen.observers(r, [sel, "auto"]))
             cases.append(gen.default_case(r, ["portable", sel, "auto"], std=False))
+        if sel == "wasm":
+            # direct conformance of the modelled simd128 intrinsics (swizzle only where the executor implements it)
+            cases.append(gen.wasm_intrin_cases(r, reps=(3 if tier == "quick" else 40), swizzle=bool(info.get("real_engine"))))
         return cases
     return g
 
@@ -748,7 +751,7 @@ def special_c04(res, tier, seed, workdir, stats):
             raise RuntimeError("nodewasm unavailable")
         return outs, crashed
     try:
-        st2 = check_mod().run_config(res, "C04", tier, seed * 31 + 5, "node-wasm32-simd128", None, info0, workdir, gen_override=gen_simd_target("wasm"), executor=ex_node, label="c04node")
+        st2 = check_mod().run_config(res, "C04", tier, seed * 31 + 5, "node-wasm32-simd128", None, dict(info0, real_engine="1"), workdir, gen_override=gen_simd_target("wasm"), executor=ex_node, label="c04node")
         stats.append(dict(st2, engine="node " + (hh.sh(["/usr/bin/nodejs", "--version"])[1].strip() or "?")))
         res.cov["real_engine"] = "the same op streams on V8 (node): src/wasm.rs + the runner built as one no_std wasm32 cdylib (+simd128) against the core-only Miri sysroot; Debug ops are not observed there"
     except RuntimeError:
